@@ -50,7 +50,7 @@ def describe(tier, seed):
         exhaustive=True,
         alphabets=dict(h=HS, base_scales=["default", "0.5", "[3,0.5,2..]"], calibrated=[1.0, 1e-3, 50.0], pade_orders=[3, 5, 7, 9, 13], dtypes=["float64", "float32"],
                        ou_drifts=["-0.5 I", "rotation+damping", "stiff diag(-1,-20,..)"], matern_length_scales=[0.5, 2.0]),
-        bounds=dict(tol64=1e-10, tol32=1e-4, drift_norm_times_h_max=50),
+        bounds=dict(tol64=1e-10, tol64_gram=3e-10, tol32=3e-4, drift_norm_times_h_max=50),
         assumptions=["exponential priors exist for the dense factorisation only (the others raise NotImplementedError)"],
     )
 
@@ -156,6 +156,8 @@ def _run_iwp(case):
 def _run_hilbert(case):
     import mpmath
     from probdiffeq.util import cholesky_util
+
+    from mc.refmodel import gauss  # noqa: F401  (sets mp.dps = 60)
 
     n = case["n"]
     fails = []
@@ -311,9 +313,12 @@ def _run_gram(case):
     from mc.props.C08 import _table
 
     order, dtype = case["order"], case["dtype"]
+    if dtype == "float32" and not case.get("_child"):
+        return _run_gram_f32_subprocess(case)
+    from mc.refmodel import gauss  # noqa: F401  (sets mp.dps)
     pl = getattr(gram_util, f"pade_and_legendre_{order}")()
     fn = gram_util.exp_gram_cholesky(pade_legendre=pl, solve=linalg.solve_lu)
-    tol = 1e-10 if dtype == "float64" else 1e-4
+    tol = 3e-10 if dtype == "float64" else 3e-4  # order 3 reaches 3e-11 / 5e-5 (truncation); the order-5 defect was 1e-8
     fails, wk = [], {}
     ntr = 0
     sample = None
@@ -347,3 +352,20 @@ def _run_gram(case):
     for f in fails:
         seen.setdefault(f["kind"], f)
     return core.result(case, list(seen.values()), transitions=ntr, traces=ntr, states=ntr, outcome="ok" if not fails else "|".join(sorted(seen)), dev=max(wk.values(), default=0.0), sample=sample)
+
+
+def _run_gram_f32_subprocess(case):
+    """float32 needs jax_enable_x64 off, which is process-global: run the same body in a child process."""
+    import json
+    import os
+    import subprocess
+    import sys
+
+    env = dict(os.environ, VERIF_X64="0")
+    code = ("import json,sys; from mc import jaxenv; jaxenv.setup(x64=False); from mc.props import C09; "
+            "c=json.loads(sys.argv[1]); c['_child']=True; print('RESULT'+json.dumps(C09._run_gram(c), default=str))")
+    p = subprocess.run([sys.executable, "-c", code, json.dumps(case)], capture_output=True, text=True, env=env, cwd=os.path.dirname(os.path.dirname(os.path.dirname(os.path.abspath(__file__)))))
+    for line in p.stdout.splitlines():
+        if line.startswith("RESULT"):
+            return json.loads(line[6:])
+    return core.result(case, [core.fail("exception:child", (p.stderr or p.stdout)[-1200:])], outcome="exception")
